@@ -44,7 +44,7 @@ import AGV.Core.Types
 import AGV.Spec.Exec
 import AGV.Model.ExecStatic
 
-namespace AGV.Model.ExecDynamic
+namespace AGV.Model.ExecDynamicX
 open AGV.Core
 open AGV.Spec.Exec (FieldOcc Sel.key argValue mapIdx selectOp)
 open AGV.Model.ExecStatic (joinAll nnWrap insertKV zipMerge singleKV prune)
@@ -306,4 +306,4 @@ def run (D : Defects) (S : Schema) (d : Doc) (opName : Option String) (raw : Lis
       | .subscription => S.subscription.getD ""
     resolveContainer c fuel root 0 (prune sv fuel op.sels) []
 
-end AGV.Model.ExecDynamic
+end AGV.Model.ExecDynamicX
